@@ -44,6 +44,7 @@ def setup(ctx):
     ctx.require("monitor", "changed_cert_calls", 30)
     ctx.require("monitor", "tampered_cert_calls", 20)
     ctx.require("monitor", "concurrent_first_contacts", 12)
+    ctx.require("monitor", "lookalike_host_histories", 4)
     ctx.require("monitor", "table_comparisons", 400)
     ctx.require("monitor", "l0_steps", 2000)
     ctx.require("monitor", "redirect_hops_checked", 20)
@@ -206,7 +207,7 @@ class World:
 
         self.peers = {"A": peers.ScriptedPeer(self.P["ec1"], make_behaviour("A"), name="A"), "B": peers.ScriptedPeer(self.P["ec1"], make_behaviour("B"), name="B")}
         self.current = {"A": "ec1", "B": "ec1"}
-        self.hostmap = peers.HostMap({"alpha.test": "127.0.0.1", "beta.test": "127.0.0.1"})
+        self.hostmap = peers.HostMap({"alpha.test": "127.0.0.1", "beta.test": "127.0.0.1", "node_1.test": "127.0.0.1", "node-1.test": "127.0.0.1", "nodex1.test": "127.0.0.1"})
         self.hostmap.__enter__()
 
     def swap(self, peer, cert):
@@ -225,7 +226,18 @@ TARGETS = {
     "t2": ("127.0.0.1", "A"),      # same peer, different host spelling: separate pin
     "t3": ("alpha.test", "B"),     # same host, different port
     "t4": ("LOCALHOST", "B"),      # upper-case spelling: key 'localhost'
+    # names that match each other under SQL LIKE ('_' is a wildcard) yet are different hosts, on one port
+    "t5": ("node_1.test", "A"),
+    "t6": ("node-1.test", "A"),
+    "t7": ("nodeX1.test", "A"),
 }
+
+LOOKALIKE_HISTORIES = [
+    (("get", "t6"), ("swap", "A", "ec2"), ("get", "t5"), ("get", "t6"), ("swap", "A", "ec1"), ("get", "t5"), ("get", "t6"), ("upload", "t5")),
+    (("get", "t5"), ("swap", "A", "rsa"), ("upload", "t6"), ("get", "t7"), ("get", "t5"), ("swap", "A", "ec1"), ("get", "t7"), ("get", "t5")),
+    (("trust", "t7"), ("trust", "t6"), ("swap", "A", "ed"), ("get", "t5"), ("revoke", "t5"), ("get", "t6"), ("get", "t7"), ("swap", "A", "ec1"), ("get", "t6"), ("get", "t5")),
+    (("get", "t7"), ("get", "t6"), ("restore", "replace"), ("swap", "A", "ec2"), ("get", "t5"), ("restore", "replace"), ("swap", "A", "ec1"), ("get", "t5"), ("get", "t6")),
+]
 
 
 def key_of(world, t):
@@ -480,6 +492,11 @@ def run_l3(ctx):
                 continue
             run_history(ctx, world, hist, tofu=True)
         ctx.count("exhaustive_scope", f"L3 depth {depth} over {len(ALPHABET)} operations" + (" (1/5 sample)" if ctx.quick() else ""))
+        if ctx.shard == 0 or ctx.nshards == 1:
+            for hist in LOOKALIKE_HISTORIES:
+                for tofu_on in (True,):
+                    run_history(ctx, world, hist, tofu=tofu_on, label="lookalike-hosts")
+                    ctx.count("monitor", "lookalike_host_histories")
         n = ctx.pick(48, 1600) // ctx.nshards
         for i in range(n):
             L = rng.randint(10, 30)
